@@ -1,0 +1,8 @@
+package stdlib
+
+import "log/slog"
+
+// slogNewLogLogger returns the logger of slog.NewLogLogger, wrapped.
+func slogNewLogLogger(h slog.Handler, level slog.Level) *logLogger {
+	return &logLogger{slog.NewLogLogger(h, level)}
+}
